@@ -681,6 +681,8 @@ func (zp *ZoneParser) next() (RR, bool) {
 				rr             RR
 				parseAsRFC3597 bool
 			)
+
+			zp.c.ended, zp.c.overrun = false, false
 			if newFn, ok := TypeToRR[h.Rrtype]; ok {
 				rr = newFn()
 				*rr.Header() = *h
@@ -752,6 +754,12 @@ func (zp *ZoneParser) next() (RR, bool) {
 				return nil, false
 			}
 
+			if zp.c.overrun {
+				// The RDATA parser skipped the end of the line and took its
+				// remaining fields from the next one.
+				return zp.setParseError("unexpected newline", zp.c.lineEnd)
+			}
+
 			if zp.c.l.err {
 				// The lexer found a syntax error that the RDATA parser skipped.
 				return zp.setParseError(zp.c.l.token, zp.c.l)
@@ -795,6 +803,10 @@ type zlexer struct {
 	nextL bool
 
 	eol bool // end-of-line
+
+	lineEnd lex  // the last zNewline that Next handed out
+	ended   bool // Next has handed out a zNewline since the start of the current RDATA
+	overrun bool // ... and another token after it
 }
 
 func newZLexer(r io.Reader) *zlexer {
@@ -854,7 +866,7 @@ func (zl *zlexer) Peek() lex {
 		return zl.l
 	}
 
-	l, ok := zl.Next()
+	l, ok := zl.next()
 	if !ok {
 		return l
 	}
@@ -870,7 +882,24 @@ func (zl *zlexer) Peek() lex {
 	return l
 }
 
+// Next hands out the next token. Outside parentheses a zNewline ends the entry,
+// so a reader of RDATA that is handed a token after a zNewline has left its line;
+// that is noted here for ZoneParser.Next.
 func (zl *zlexer) Next() (lex, bool) {
+	l, ok := zl.next()
+	if ok {
+		if zl.ended {
+			zl.overrun = true
+		} else if l.value == zNewline {
+			zl.ended = true
+			zl.lineEnd = l
+		}
+	}
+
+	return l, ok
+}
+
+func (zl *zlexer) next() (lex, bool) {
 	l := &zl.l
 	switch {
 	case zl.cachedL != nil:
